@@ -539,6 +539,36 @@ CHECKS["C07"] = {
     "assumptions": COMMON_ASSUMPTIONS,
 }
 
+CHECKS["C14"] = {
+    "sub": "c14",
+    "level": "fault_enumeration",
+    "technique": "runtime monitoring under enumerated faults: scripted io::Read/Write (fragmentation, Interrupted, truncation) vs a framing reference model, with allocation monitor",
+    "rule": "streams: 225 streams of <= 20 bytes (frames with decodable, undecodable and zero-length payloads, hostile prefixes) x every truncation point x compositions of the stream length into read sizes (all 2^(L-1), strided above the per-stream cap) x max_len in {64,3,2}; Interrupted inserted 0/1/2 times before each read (exhaustive for <= 10 reads); random long streams (<= 24 frames, payloads to 6 KiB) with random scripts; writer sequences (incl. values that fail to encode or exceed max_len) into a scripted short-write/Interrupted sink, read back. distinct = enumerated (stream, script, max_len) triples + hashed random streams",
+    "level_text": "Faults (short reads, interrupted calls, truncation at every byte, oversized prefixes) are enumerated rather than sampled for all small streams, and the expected result sequence comes from an independent framing model over the stream bytes alone; the reader's buffer length, largest read request and peak allocation are measured against max_len.",
+    "level_note": "Trusted: c14::refframe and refcbor for decoding payloads as Vec<u16>. 4 GiB frames (the writer's `as u32`) are out of reach. After InvalidLen the stream is desynchronised by design; the model stops there.",
+    "assumptions": COMMON_ASSUMPTIONS,
+}
+
+CHECKS["C15"] = {
+    "sub": "c15",
+    "level": "exploration",
+    "technique": "runtime monitoring over systematically enumerated schedules: scripted AsyncRead + hand-written executor, online prefix monitor vs framing model, state-invariant hook",
+    "rule": "schedules = sequences of source outcomes {deliver 1/2/all requested, Pending, transient error, end of stream} and caller decisions {poll again, drop the future and call read again}; exhaustive for every prefix of the single-frame streams; for every prefix of all 2- and 3-frame streams (<= 14 bytes) all schedules with <= 5 (quick) / 7 (thorough) deviations from two base policies (deliver everything / one byte at a time); seeded random walks over streams of up to 64 frames with 4 KiB payloads; each enumerated schedule is distinct by construction, random walks by hash of the choice vector",
+    "level_text": "Cancellation safety is a property of schedules, so the schedule space is enumerated by re-execution under a deterministic executor: every poll outcome of the source and every drop/re-issue decision of the caller is a choice point. The monitor checks online that returned values are exactly the written prefix and, through the add-only state hook, that bytes consumed from the source equal completed frames plus the reader's recorded offset at every quiescent point. Liveness is restated as bounded progress (a poll budget linear in the stream).",
+    "level_note": "Trusted: the scripted source and executor in harness/vmain/src/aio.rs; deviation bounding (as in delay-bounded scheduling) covers all placements of up to K non-default outcomes, not all schedules. If the hook is absent the state invariants are skipped and the evidence says io_hook=false.",
+    "assumptions": COMMON_ASSUMPTIONS,
+}
+
+CHECKS["C16"] = {
+    "sub": "c16",
+    "level": "exploration",
+    "technique": "runtime monitoring over systematically enumerated schedules: scripted AsyncWrite + hand-written executor, online prefix monitor on the sink bytes, state-invariant hook",
+    "rule": "schedules = sink outcomes {accept 1/2/all, Pending, transient error, accept 0} and caller decisions {poll again, drop the write future then sync (itself droppable and re-issued)}; exhaustive for single-value writes, all schedules with <= 5 (quick) / 7 (thorough) deviations from two base policies for all value sequences of length 2 and 3 (values include one that fails to encode and ones above max_len; max_len in {64, 2}); seeded random walks over up to 48 values; distinct by construction / by hash of the choice vector",
+    "level_text": "The caller follows exactly the documented contract (cancel + sync before the next write); every sink outcome and caller decision is a choice point enumerated by re-execution. The monitor checks after every step that the sink is a prefix of the concatenated frames and equal at quiescence, that write returns the payload length, that idle sync does not touch the sink, that accept-0 yields WriteZero exactly when injected, and through the hook that sink length = completed frames + recorded offset.",
+    "level_note": "Trusted: aio.rs (scripted sink, executor). Deviation bounding covers all placements of up to K non-default outcomes.",
+    "assumptions": COMMON_ASSUMPTIONS,
+}
+
 
 def write_manifest():
     ids = [json.loads(l)["id"] for l in open(os.path.join(ROOT, "properties.jsonl"))]
